@@ -1,8 +1,12 @@
 package harness
 
 import (
+	"bytes"
+	"errors"
 	"fmt"
 	"strings"
+
+	"github.com/ipld/go-storethehash/store/types"
 
 	"github.com/ipld/go-storethehash/verifshim/vos"
 )
@@ -724,6 +728,233 @@ func c11Scenarios(tier string) []*SeqScenario {
 	return scs
 }
 
-func recoverC09(sc *CrashScenario, img vos.Image, info crashInfo, c *Collector) *Violation { return nil }
-
 func recoverC10(sc *CrashScenario, img vos.Image, info crashInfo, c *Collector) *Violation { return nil }
+
+// ---- C09: re-bucketing on reopen ----
+
+func c09Bits(tier string) []uint8 {
+	if tier == "quick" {
+		return []uint8{8, 9, 12, 16}
+	}
+	return []uint8{8, 9, 12, 15, 16, 17}
+}
+
+// c09Setup fixes the key universe to the one of the larger bit size, so that
+// the same keys are used before and after the change.
+func c09Setup(maxBits uint8) func(w *World) {
+	return func(w *World) {
+		c := w.Cfg
+		c.Bits = maxBits
+		w.Keys, w.Probes = universe(c)
+	}
+}
+
+func c09Final(b2 uint8) func(w *World, c *Collector) *Violation {
+	return func(w *World, c *Collector) *Violation {
+		steps := []Op{{Kind: OpFlush}, {Kind: OpRebits, A: int(b2)}, {Kind: OpReads}, {Kind: OpIterate},
+			{Kind: OpPut, K: 2, V: 2}, {Kind: OpRemove, K: 0}, {Kind: OpPut, K: 1, V: 3}, {Kind: OpFlush}, {Kind: OpReads},
+			{Kind: OpReopen, A: 1}, {Kind: OpReads}, {Kind: OpRebits, A: int(b2)}, {Kind: OpReads}}
+		if w.Cfg.Immutable {
+			steps[6] = Op{Kind: OpReads}
+		}
+		for _, op := range steps {
+			if v := w.Step(op); v != nil {
+				v.Detail = fmt.Sprintf("(%s) %s", op, v.Detail)
+				return v
+			}
+		}
+		return nil
+	}
+}
+
+func c09Scenarios(tier string) []*SeqScenario {
+	alpha := putOps([]int{0, 1, 3, 4}, []int{1})
+	alpha = append(alpha, Op{Kind: OpPut, K: 0, V: 2}, Op{Kind: OpRemove, K: 0}, Op{Kind: OpRemove, K: 1}, Op{Kind: OpFlush})
+	depth := 3
+	if tier != "quick" {
+		depth = 4
+	}
+	var scs []*SeqScenario
+	bits := c09Bits(tier)
+	for _, b1 := range bits {
+		for _, b2 := range bits {
+			if b1 == b2 {
+				continue
+			}
+			mb := b1
+			if b2 > mb {
+				mb = b2
+			}
+			for _, p := range []string{"mh", "cid"} {
+				if tier == "quick" && p == "cid" && (b1+b2)%2 == 0 {
+					continue
+				}
+				pfs := uint32(48)
+				if p == "cid" {
+					pfs = bigFile
+				}
+				cc := cfg(p, false, b1, 48, pfs)
+				scs = append(scs, &SeqScenario{Prop: "C09", Name: fmt.Sprintf("c09/%d->%d", b1, b2), Cfg: cc, Alphabet: alpha, Depth: depth,
+					Setup: c09Setup(mb), Final: c09Final(b2), Nontrivial: sharedBucketNontrivial})
+			}
+		}
+	}
+	return scs
+}
+
+// c09Mismatch checks the file-size mismatch clause: refused with the specific
+// error, directory untouched, original settings still open it.
+func runC09Mismatch(c *Collector) {
+	if c.job.Shard != 0 {
+		return
+	}
+	for _, p := range []string{"mh", "cid"} {
+		for _, which := range []string{"index", "primary", "both"} {
+			if p == "cid" && which != "index" {
+				continue
+			}
+			c.res.Evaluations++
+			base := cfg(p, false, 8, 48, 48)
+			if p == "cid" {
+				base.PriFS = bigFile
+			}
+			w, err := NewWorld(base)
+			if err != nil {
+				c.res.InfraError = err.Error()
+				return
+			}
+			report := func(v *Violation) {
+				v.Property = "C09"
+				v.Config = base.String()
+				v.Trigger = "file-size-mismatch:" + which
+				v.History = "Put(K0,a); Put(K1,bb); Flush; Put(K4,a); Remove(K1); Close; OpenStore[" + which + " file size changed]"
+				v.Replay = map[string]any{"engine": "S-mismatch", "which": which, "primary": p}
+				c.violation(v, 0)
+			}
+			ok := true
+			for _, op := range []Op{P(0, 1), P(1, 2), opF, P(4, 1), R(1)} {
+				c.res.Transitions++
+				if v := w.Step(op); v != nil {
+					ok = false
+				}
+			}
+			if !ok || w.Close() != nil {
+				continue
+			}
+			before := w.FS.Digest()
+			bad := *w
+			if which == "index" || which == "both" {
+				bad.Cfg.IdxFS = 64
+			}
+			if which == "primary" || which == "both" {
+				bad.Cfg.PriFS = 64
+			}
+			err = bad.Open()
+			c.res.Transitions++
+			if err == nil {
+				bad.Close()
+				report(viol("wrong-return", "opening with a different %s file size succeeded", which))
+				continue
+			}
+			var ie types.ErrIndexWrongFileSize
+			var pe types.ErrPrimaryWrongFileSize
+			switch {
+			case which == "index" && !errors.As(err, &ie):
+				report(viol("wrong-return", "opening with a different index file size failed with %q, want ErrIndexWrongFileSize", err))
+				continue
+			case which == "primary" && !errors.As(err, &pe):
+				report(viol("wrong-return", "opening with a different primary file size failed with %q, want ErrPrimaryWrongFileSize", err))
+				continue
+			case which == "both" && !errors.As(err, &pe) && !errors.As(err, &ie):
+				report(viol("wrong-return", "opening with different file sizes failed with %q, want a file-size mismatch error", err))
+				continue
+			}
+			if w.FS.Digest() != before {
+				report(viol("wrong-return", "the refused open (%v) modified the store's files", err))
+				continue
+			}
+			if err := w.Open(); err != nil {
+				report(viol("open-error", "after the refused open the original settings no longer open the store: %v", err))
+				continue
+			}
+			if v := w.Reads(); v != nil {
+				report(v)
+			}
+			w.Close()
+			c.stateKey("mismatch:" + p + which)
+			c.count("nontrivial", 1)
+		}
+	}
+}
+
+// recoverC09: a crash image of an interrupted re-bucketing must, for the old
+// and for the new bit size, either refuse to open or open with every key that
+// was there before.
+func recoverC09(sc *CrashScenario, img vos.Image, info crashInfo, c *Collector) *Violation {
+	want := info.models[len(info.models)-2] // model before the re-bucketing op
+	if info.inFlight >= 0 {
+		want = info.models[info.inFlight]
+	}
+	newBits := uint8(info.hist[info.inFlight].A)
+	for _, bits := range []uint8{sc.Cfg.Bits, newBits} {
+		cc := sc.Cfg
+		cc.Bits = bits
+		fw := &World{Cfg: cc, FS: vos.FromImage(img), Model: map[string][]byte{}, GCInt: 1000 * 3600e9, Sync: 1000 * 3600e9, Keys: info.keys, Probes: info.probes}
+		setMapOrder(cc)
+		var v *Violation
+		func() {
+			defer func() {
+				if r := recover(); r != nil {
+					v = violO("crash", "panic", "panic opening the interrupted re-bucketing with %d bits: %v", bits, r)
+					fw.opened = false
+				}
+			}()
+			if err := fw.Open(); err != nil {
+				c.count("c09.refused_opens", 1)
+				return
+			}
+			c.count("c09.successful_opens", 1)
+			for _, k := range info.keys {
+				wv, present := want[string(k.Digest)]
+				if !present {
+					continue
+				}
+				got, found, err := fw.S.Get(k.Raw)
+				if err != nil || !found || !bytes.Equal(got, wv) {
+					v = violO("crash", "key-lost", "interrupted re-bucketing %d->%d opens successfully with %d bits but Get(%s) = (%q,%v,%v), before the change it held %q", sc.Cfg.Bits, newBits, bits, k.Name, got, found, err, wv)
+					v.Trigger = fmt.Sprintf("open-with-%s-bits", map[bool]string{true: "old", false: "new"}[bits == sc.Cfg.Bits])
+					return
+				}
+			}
+		}()
+		func() {
+			defer func() { recover() }()
+			fw.Close()
+		}()
+		if v != nil {
+			return v
+		}
+	}
+	return nil
+}
+
+func c09CrashScenarios(tier string) []*CrashScenario {
+	pairs := [][2]uint8{{8, 12}, {16, 8}}
+	if tier != "quick" {
+		pairs = append(pairs, [2]uint8{8, 9}, [2]uint8{12, 16}, [2]uint8{9, 8})
+	}
+	var scs []*CrashScenario
+	for _, pr := range pairs {
+		for _, pre := range [][]Op{
+			{P(0, 1), P(1, 1), P(4, 1), opF, P(0, 2), {Kind: OpReopen, A: 0}},
+			{P(0, 1), opF, P(1, 2), opF, R(0), P(3, 1), {Kind: OpReopen, A: 0}},
+		} {
+			cc := cfg("mh", false, pr[0], 48, 48)
+			b2 := pr[1]
+			scs = append(scs, &CrashScenario{Prop: "C09", Name: fmt.Sprintf("c09x/%d->%d", pr[0], b2), Cfg: cc, Preamble: pre,
+				Alphabet: []Op{{Kind: OpRebits, A: int(b2)}}, Depth: 1, Recover: recoverC09, Oracles: []string{"crash"},
+				Allow: func(hist []Op) bool { return true }})
+		}
+	}
+	return scs
+}
